@@ -246,6 +246,24 @@ def check(ctx):
             ctx.bad("D8", hs[0], "GramStack.%s: %s" % (meth, p), "transient destination errors are never recognised and raise")
         ctx.check(ok, "T6-dgram", f, "GramStack.%s: transient destination errors => %s, else re-raise" % (meth, "packet deferred, destination blocked for this pass" if retry == "defer" else "no data"),
                   "datagram stacks must treat transient destination errors as retryable rather than fatal")
+    # a handler that lets a socket error go on must re-raise THAT error: the layers above classify on its errno (args[0])
+    ctx.rule("D8-reraise", "inside `except socket.error` a raise is bare (or raises the caught object): wrapping it in a new exception loses the errno")
+    nre = 0
+    for modn in ("aio.udp.udping", "aio.tcp.clienting", "aio.tcp.serving", "aio.uxd.uxding"):
+        try:
+            m = ctx.repo.mod(modn)
+        except AnchorError:
+            continue
+        ctx.use(m)
+        for hnd in ast.walk(m.tree):
+            if isinstance(hnd, ast.ExceptHandler) and hnd.type is not None and (dotted(hnd.type) or "").endswith("socket.error"):
+                for r in ast.walk(hnd):
+                    if isinstance(r, ast.Raise):
+                        nre += 1
+                        ctx.check(r.exc is None or (isinstance(r.exc, ast.Name) and r.exc.id == hnd.name), "D8-reraise", r, src(r)[:80],
+                                  "the new exception carries a message as args[0] and no errno: the stack above no longer "
+                                  "recognises transient destination errors or connection loss and treats them as fatal")
+    ctx.floor("D8-reraise:raises", nre, 8)
     from .c35 import deferred_requeued
     deferred_requeued(ctx, "T6-dgram")
     ctx.floor("handlers", handlers, 11)
